@@ -107,6 +107,10 @@ func build(c *wk.Ctx, i int, r *rand.Rand) (*workload, error) {
 						firstErr.Store(fmt.Errorf("a write failed without any fault: %v", err))
 						return
 					}
+					if rp := cl.TxProblem; rp != nil {
+						firstErr.Store(fmt.Errorf("Transaction.Get(%s) returned %s; the transaction's own latest write says %v", rp.Key, rp.Got, rp.Want))
+						return
+					}
 				case x < 91:
 					if err := db.CompactRange(util.Range{}); err != nil {
 						firstErr.Store(fmt.Errorf("CompactRange failed without any fault: %v", err))
